@@ -116,7 +116,7 @@ Print Assumptions C05_simple_select_types_partial.
 
 (** ** the Go side (Model/GoGen.v = result.go buildQueries, compared exactly with the generator's own
     values through the verif hook on every case of the C01 check) *)
-From Verif Require Import Model.GoGen Proofs.GoGenFacts.
+From Verif Require Import Model.GoGen Proofs.GoGenFacts Model.GoModels Proofs.GoModelsFacts.
 
 (** whatever a query returns - the single value, a fresh Row struct or a reused model struct - its Go
     types are, in order, goType of the query's result columns (which C05_*_partial above tie to the
@@ -147,3 +147,24 @@ Example C05_reuse_non_vacuous :
   /\ build_ret gg_st gg_cat gg_structs "Get" [gg_col "bio" "text" false; gg_col "id" "pg_catalog.int4" true]
     = Ok (mkVO true "i" "" (Some (mkGSt "GetRow" ("", "") [("Bio", "sql.NullString", ""); ("ID", "int32", "")]))).
 Proof. exact reuse_example. Qed.
+
+(** ** model structs (Model/GoModels.v, the transcription of buildStructs, compared with the
+    generator's own structs on every generated package).  The struct of a table matches the
+    table's own columns field by field - same Go name, same Go type (goType of the converted
+    column, so the declared type, nullability and array-ness), same table - hence a query
+    whose result columns are exactly those columns returns a model struct, not a row struct. *)
+Theorem C05_model_struct_matches_own_columns : forall st c s t cols pos fs,
+  s <> "" ->
+  (forall col, In col cols -> col_name col <> "") ->
+  model_fields st c s t cols = Ok fs ->
+  fields_same st c (s, tab_name t) pos fs (map (model_col s t) cols) = true.
+Proof. exact model_fields_same. Qed.
+Print Assumptions C05_model_struct_matches_own_columns.
+
+Theorem C05_own_columns_reuse_partial : forall st c s t fs name structs1 structs2,
+  s <> "" ->
+  (forall col, In col (tab_cols t) -> col_name col <> "") ->
+  model_fields st c s t (tab_cols t) = Ok fs ->
+  exists g, reuse_struct st c (structs1 ++ mkGSt name (s, tab_name t) fs :: structs2) (map (model_col s t) (tab_cols t)) = Some g.
+Proof. exact own_columns_reuse_some_struct. Qed.
+Print Assumptions C05_own_columns_reuse_partial.
